@@ -109,9 +109,11 @@ class Resolver:
             # different offset from the entry input
             if len(offs) == 1 and not var:
                 return Prov(roots, offs.pop(), False)
+            # the constant prefix (lowest known base) still identifies the
+            # member / array the pointer walks over
             base = None
             for r in rs:
-                if r.offset is not None and not r.variable:
+                if r.offset is not None:
                     base = r.offset if base is None else min(base, r.offset)
             return Prov(roots, base, True)
         if i.op == "select":
